@@ -197,6 +197,8 @@ DurLawsClause(m, ev) ==
      ELSE IF ~Same(ev.an, DurMulFn(a, n)) THEN "d*n"
      ELSE IF ~Same(ev.nsum, DurMulFn(a, n)) THEN "n-fold-sum"
      ELSE IF ~fr /\ ~ev.muleq THEN "n*d==n-fold-sum"
+     ELSE IF ~Same(ev.nsum2, DurMulFn(a, n)) THEN "n-fold-sum-with-+="
+     ELSE IF ~DurSame(ev.aafter, a) THEN "operand-changed-by-+="
      ELSE IF ~Same(ev.amb, DurAddFn(a, DurMulFn(b, -1))) THEN "a-b"
      ELSE IF ~Same(ev.apnb, DurAddFn(a, DurMulFn(b, -1))) THEN "a+(-1*b)"
      ELSE IF ~fr /\ ~ev.subeq THEN "a-b==a+(-1*b)"
